@@ -98,7 +98,8 @@ func openFile(reader io.ReaderAt, writer *os.File, closer io.Closer) (*ComDoc, e
 	if header.ByteOrder != byteOrderMarker {
 		return nil, errors.New("incorrect byte order marker")
 	}
-	if header.SectorSize < 5 || header.SectorSize > 28 || header.ShortSectorSize >= header.SectorSize {
+	// the format knows sectors of 512 bytes (version 3) and 4096 bytes (version 4) only
+	if (header.SectorSize != 9 && header.SectorSize != 12) || header.ShortSectorSize >= header.SectorSize {
 		return nil, errors.New("unreasonable header values")
 	}
 	r.SectorSize = 1 << header.SectorSize
